@@ -80,6 +80,14 @@ fn main() {
         out("verify-rejects-forgery", r.is_err());
         out("public-key-text", pk.to_string() == s(m, "public_key_text"));
         offers::<Public>(m, "offers_public", "key-offers-public");
+        let mut same = true;
+        let mut n = 0;
+        for o in m["offers_tokens_public"].as_array().unwrap() {
+            let ok = SealedToken::<V, Public, Raw, Vec<u8>>::from_str(o["text"].as_str().unwrap()).and_then(|t| t.unseal(&pk, &aad, &nv())).is_ok();
+            same &= ok == o["ok"].as_bool().unwrap();
+            n += 1;
+        }
+        println!("{}", json!({"op": "token-offers-public", "same": same, "offers": n}));
     }
     #[cfg(feature = "signing")]
     {
@@ -109,6 +117,14 @@ fn main() {
         let r = SealedToken::<V, Local, Raw, Vec<u8>>::from_str(s(m, "token_local_bad")).and_then(|t| t.unseal(&lk, &aad, &nv()));
         out("decrypt-rejects-forgery", r.is_err());
         offers::<Local>(m, "offers_local", "key-offers-local");
+        let mut same = true;
+        let mut n = 0;
+        for o in m["offers_tokens_local"].as_array().unwrap() {
+            let ok = SealedToken::<V, Local, Raw, Vec<u8>>::from_str(o["text"].as_str().unwrap()).and_then(|t| t.unseal(&lk, &aad, &nv())).is_ok();
+            same &= ok == o["ok"].as_bool().unwrap();
+            n += 1;
+        }
+        println!("{}", json!({"op": "token-offers-local", "same": same, "offers": n}));
     }
     #[cfg(feature = "encrypting")]
     {
